@@ -127,9 +127,10 @@ def produce(item, variant, rng, others):
             PythonCodeGenerator(class_name="Earlier")(dag)
             if item["kind"] == "ftn":
                 ftn.generate(dag, script, module="earlier", hooks=True)
-        except Exception as ex:
-            out["python"] = f"EXC-in-earlier-configuration {type(ex).__name__}: {str(ex)[:80]}"
-            return out
+        except Exception:
+            # the other configuration does not take this program (e.g. a built-in without Fortran support):
+            # nothing was handed out earlier, the variant degenerates to the identity
+            pass
     try:
         out["python"] = PythonCodeGenerator(class_name="M")(dag)
     except Exception as ex:
